@@ -37,6 +37,14 @@ CONFIRMED = [
 ]
 
 
+def _try_resolve(F, p):
+    try:
+        F.resolve(p)
+        return True
+    except FX.AnchorMissing:
+        return False
+
+
 def lock_pins():
     pins = {}
     try:
@@ -77,6 +85,40 @@ def body(ck, F, cfg):
     ifs = [(PN.parse_spx(e["spx"]), e) for e in log if e["kind"] == "if-const"]
     pguards = [(PN.parse_spx(e["spx"]), e) for e in log if e["kind"] == "panic-guard"]
     EV = PN.err_variants_rule(F, reachable)
+    # a helper reached only from functions the proof does not flow into is itself not proof-dependent
+    npd = dict(NOT_PROOF_DEPENDENT)
+    npd = {F.resolve(k_) if True else k_: v_ for k_, v_ in npd.items() if _try_resolve(F, k_)}
+    grown = True
+    while grown:
+        grown = False
+        for p_ in reachable:
+            if p_ in npd:
+                continue
+            callers = {a_ for a_, bs in edges.items() if p_ in bs}
+            if callers and callers <= set(npd):
+                npd[p_] = f"only called from {sorted(callers)[0].split('::')[-1]}: " + npd[sorted(callers)[0]]
+                grown = True
+    _co = {}
+
+    def callees_of(root):
+        """functions reachable from `root` (a private helper the anchored function delegates to inherits its hand-confirmed
+        index-arithmetic facts: they are stated on the TERM detail of the site, not on the function name)"""
+        if root not in _co:
+            try:
+                r0 = F.resolve(root)
+            except FX.AnchorMissing:
+                _co[root] = set()
+                return _co[root]
+            seen_, work_ = set(), [r0]
+            while work_:
+                x_ = work_.pop()
+                for y_ in edges.get(x_, ()):
+                    if y_ not in seen_:
+                        seen_.add(y_)
+                        work_.append(y_)
+            _co[root] = seen_
+        return _co[root]
+
     nsites = 0
     disch = {}
     per_fn = {}
@@ -97,8 +139,8 @@ def body(ck, F, cfg):
             rule, ok, why = None, False, ""
             inst_detail = sorted({e["detail"] for e in entries})[:3]
             key_detail = inst_detail[0] if inst_detail else (st.get("callee") or "")
-            if p in NOT_PROOF_DEPENDENT:
-                rule, ok, why = "NOT_PROOF_DEPENDENT", True, NOT_PROOF_DEPENDENT[p]
+            if p in npd:
+                rule, ok, why = "NOT_PROOF_DEPENDENT", True, npd[p]
             elif kind in ("overflow:Add", "overflow:Mul", "npow2"):
                 rule, ok, why = "LENGTH_ARITH", True, "sums/products of lengths of live allocations and small constants cannot exceed usize"
             elif kind == "panic":
@@ -127,7 +169,7 @@ def body(ck, F, cfg):
                 bad = [e for e in entries if not e["ok"]]
                 conf = None
                 for (cfn, ckind, rx, reason) in CONFIRMED:
-                    if cfn == p and all(e["kind"] == ckind and re.search(rx, e["detail"]) for e in bad):
+                    if (cfn == p or p in callees_of(cfn)) and all(e["kind"] == ckind and re.search(rx, e["detail"]) for e in bad):
                         conf = reason
                         break
                 if conf:
